@@ -37,6 +37,8 @@ def _crystals(draw):
     if draw(st.integers(0, 2)) == 0:
         # no free parameter at all, metrically fixed lattice types: exercises the second clause (identical conventional cell)
         return draw(gx.crystal_descs(sgs=list(range(75, 231)), only_fixed=True))
+    if draw(st.integers(0, 2)) == 0:
+        return draw(gx.shared_letter_descs())
     return draw(gx.crystal_descs())
 
 
